@@ -25,6 +25,8 @@ IMPORTS = ("From Coq Require Import List NArith ZArith Bool.\n"
            "From Verif Require Import Base.Val C31.Model_C31 C31.Spec_C31.")
 EBD = "../../data/lib/pkgcore/ebd/"
 ANCHORS = ["ebuild/processor.py::EbuildProcessor._generate_env_str",
+           "ebuild/processor.py::EbuildProcessor._quote_env_value",
+           "ebuild/processor.py::EbuildProcessor._quote_env_element",
            "ebuild/processor.py::EbuildProcessor.send_env",
            "ebuild/processor.py::EbuildProcessor._wire_len",
            "ebuild/processor.py::EbuildProcessor._run_depend_like_phase",
@@ -333,7 +335,7 @@ class Daemon:
         from pkgcore.ebuild import processor as P
         self.starts += 1
         old = signal.signal(signal.SIGALRM, _alarm)
-        signal.setitimer(signal.ITIMER_REAL, 60)
+        signal.setitimer(signal.ITIMER_REAL, 240)
         try:
             self.ebp = P.EbuildProcessor(False, False, fd_pipes={1: self.devnull.fileno(), 2: self.devnull.fileno()})
         finally:
@@ -387,7 +389,7 @@ class Daemon:
             return True
         return self._guarded(f)
 
-    def _guarded(self, f, secs=30):
+    def _guarded(self, f, secs=90):
         try:
             return self.guard(secs, f)
         except Timeout:
@@ -395,7 +397,10 @@ class Daemon:
         except BaseException as e:  # noqa: BLE001
             return Err("exception-" + type(e).__name__)
 
-    def transfer(self, env, via_file, dumpfile):
+    def transfer_slow(self, env, via_file, dumpfile):
+        return self.transfer(env, via_file, dumpfile, secs=300)
+
+    def transfer(self, env, via_file, dumpfile, secs=90):
         """inside a session: send_env; dump; alive; unset.  Returns state | Err(what)."""
         ebp = self.ebp
         names = [k for k in env if k != MARKER]
@@ -418,7 +423,7 @@ class Daemon:
 
         if dumpfile.exists():
             dumpfile.unlink()
-        r = self._guarded(steps)
+        r = self._guarded(steps, secs)
         if r is not None:
             return r
         toks = dumpfile.read_bytes().split(b"\0")
@@ -480,7 +485,7 @@ def main(chk: Check):
     for f in sorted((VERIF / "corpus" / "C31").glob("*.json")):
         d = json.loads(f.read_text())
         envs.append(({k: (v if isinstance(v, str) else list(v)) for k, v in d["env"].items()}, d.get("ro", [])))
-    n_valid, n_bad = chk.n(260, 4000), chk.n(60, 600)
+    n_valid, n_bad = chk.n(260, 2400), chk.n(60, 400)
     for _ in range(n_valid):
         envs.append(gen_env(rng))
     bad = [gen_bad_env(rng) for _ in range(n_bad)]
@@ -507,7 +512,7 @@ def main(chk: Check):
     frame_cases, frame_meta = [], []
     xdir = chk.scratch / "framefile"
     xdir.mkdir(exist_ok=True)
-    for env, ro, res in gen_meta[: chk.n(70, 1200)]:
+    for env, ro, res in gen_meta[: chk.n(70, 500)]:
         if isinstance(res, Err):
             continue
 
@@ -542,8 +547,8 @@ def main(chk: Check):
             continue
         bash_in.append(([k for k in env if k != MARKER and in_domain({k: ""})], res,
                         "impl" if in_domain(env) else "impl-offdomain"))
-    bash_in = bash_in[: chk.n(160, 3000)]
-    for _ in range(chk.n(200, 3000)):
+    bash_in = bash_in[: chk.n(160, 1800)]
+    for _ in range(chk.n(200, 1800)):
         names, text = gen_fragment_text(rng)
         bash_in.append((names, text, "hand"))
     for t in MALFORMED:
@@ -558,7 +563,8 @@ def main(chk: Check):
     lap("bash")
     # ------------------------------------------------------------------ e2e (real daemon)
     e2e_cases, e2e_meta, py_bad = [], [], []
-    n_e2e = chk.n(44, 400)
+    dro = []
+    n_e2e = chk.n(44, 300)
     dm = Daemon(chk)
     e2e_note = None
     try:
@@ -588,6 +594,18 @@ def main(chk: Check):
             if in_session == 0:
                 dm.open_session()
             r = dm.transfer(env, via_file, chk.scratch / "dump.bin")
+            if r == Err("timeout"):
+                # a loaded machine can be slow; a desynchronised channel stays blocked: retry once,
+                # alone in a fresh daemon, with a much longer limit
+                chk.cov["e2e_timeout_retries"] = chk.cov.get("e2e_timeout_retries", 0) + 1
+                dm.stop(force=True)
+                try:
+                    dm.start()
+                    dm.open_session()
+                    in_session = 0
+                    r = dm.transfer_slow(env, via_file, chk.scratch / "dump.bin")
+                except BaseException as e:  # noqa: BLE001
+                    r = Err("restart-failed-" + type(e).__name__)
             in_session += 1
             if not isinstance(r, Err) and (in_session >= per_session or j == len(todo) - 1):
                 c = dm.close_session()      # the main loop must still be in step
@@ -663,6 +681,11 @@ def main(chk: Check):
     # ------------------------------------------------------------------ report
     # (B) property failures with a concrete input
     for b in py_bad[:3]:
+        if not isinstance(b["daemon_state"], Err):      # reduce to the keys that matter (real-bash oracle)
+            small = shrink_env(b["env"], dro, P, chk)
+            if small is not b["env"]:
+                b = {"env": small, "via_file": b["via_file"], "shrunk_from_keys": sorted(b["env"]),
+                     "expected": expected_state(small, dro)}
         chk.violation("property", {"what": "the daemon's variables after send_env are not the environment sent "
                                            "(or the channel lost synchronisation)", "input": b})
     for i in spec_bad["gen"][:3]:
@@ -670,7 +693,7 @@ def main(chk: Check):
         found_input = True
         chk.violation("property", {"what": "the generated text, evaluated by the bash model, does not leave the "
                                            "variables the statement demands (Spec_C31.spec_gen_ok)",
-                                   "input": {"env": shrink_env(env, ro, P), "readonly": ro},
+                                   "input": {"env": shrink_env(env, ro, P, chk), "readonly": ro},
                                    "implementation": res})
     for i in spec_bad["frame"][:3]:
         env, ro, res = frame_meta[i]
@@ -705,10 +728,27 @@ def main(chk: Check):
         chk.violation("correspondence", {"what": e2e_note}, no_input=True)
 
 
-def shrink_env(env, ro, P):
-    """smallest sub-environment whose generated text still fails the python round-trip oracle
-    (real bash); falls back to the full environment"""
-    return env
+def shrink_env(env, ro, P, chk=None):
+    """smallest sub-environment whose generated text, evaluated by REAL bash, still differs from
+    the expected state; falls back to the full environment"""
+    if chk is None:
+        return env
+
+    def fails(items):
+        e = dict(items)
+        text = impl_call(lambda: make_proc(ro, P)._generate_env_str(e), kinds=KINDS)
+        if isinstance(text, Err) or "\x00" in text or not in_domain(e):
+            return False
+        names = [k for k in e if k != MARKER]
+        return run_real_bash(chk, [(names, text)], subshell={0})[0] != expected_state(e, ro)
+
+    try:
+        items = list(env.items())
+        if not fails(items):
+            return env
+        return dict(shrink_list(items, fails, min_len=1))
+    except Exception:  # noqa: BLE001
+        return env
 
 
 def replay(chk, data):
